@@ -63,19 +63,26 @@ func (g *G) Key() string {
 // Case is one replayable input of any check (a union; Kind selects the
 // evaluator). Its Key identifies the input for known-finding matching.
 type Case struct {
-	Kind string            `json:"kind"`
-	Op   string            `json:"op,omitempty"`
-	A    *G                `json:"a,omitempty"`
-	B    *G                `json:"b,omitempty"`
-	Cfg  string            `json:"cfg,omitempty"`  // index / option configuration
-	Doc  string            `json:"doc,omitempty"`  // document text
-	Nums []float64         `json:"nums,omitempty"` // numeric arguments
-	Ops  []string          `json:"ops,omitempty"`  // operation sequence / schedule
-	X    map[string]string `json:"x,omitempty"`    // further named arguments
+	// Class names the way the case fails (set by Run.Fail); part of the key, so
+	// a listed input that starts failing in a different way is not suppressed.
+	Class string            `json:"class,omitempty"`
+	Kind  string            `json:"kind"`
+	Op    string            `json:"op,omitempty"`
+	A     *G                `json:"a,omitempty"`
+	B     *G                `json:"b,omitempty"`
+	Cfg   string            `json:"cfg,omitempty"`  // index / option configuration
+	Doc   string            `json:"doc,omitempty"`  // document text
+	Nums  []float64         `json:"nums,omitempty"` // numeric arguments
+	Ops   []string          `json:"ops,omitempty"`  // operation sequence / schedule
+	X     map[string]string `json:"x,omitempty"`    // further named arguments
 }
 
 func (c *Case) Key() string {
 	var sb strings.Builder
+	if c.Class != "" {
+		sb.WriteString(c.Class)
+		sb.WriteByte('#')
+	}
 	sb.WriteString(c.Kind)
 	sb.WriteByte('|')
 	sb.WriteString(c.Op)
@@ -260,23 +267,23 @@ type Run struct {
 
 	Evals, States, Trans, Nontriv atomic.Int64
 
-	mu        sync.Mutex
-	hist      map[string]int64
-	samples   []any
-	viols     []Violation
-	nviol     int64
-	violClass map[string]int64
-	knownSeen map[string]int64
-	regen     map[string][]uint64
-	regenWit  map[string][]Violation
-	Bounds    map[string]any
-	Caps      []string
-	Rule      string
-	Assume    []string
-	Extra     map[string]any
+	mu         sync.Mutex
+	hist       map[string]int64
+	samples    []any
+	viols      []Violation
+	nviol      int64
+	violClass  map[string]int64
+	knownSeen  map[string]int64
+	regen      map[string][]uint64
+	regenWit   map[string][]Violation
+	Bounds     map[string]any
+	Caps       []string
+	Rule       string
+	Assume     []string
+	Extra      map[string]any
 	harnessErr []string
-	workers   []*Worker
-	progress  atomic.Int64
+	workers    []*Worker
+	progress   atomic.Int64
 	// Describe turns a Worker.Cur value into a replayable case.
 	Describe func(cur any) (Case, bool)
 }
@@ -349,9 +356,9 @@ func (r *Run) HarnessError(s string) {
 
 // Worker holds per-goroutine counters, merged on Flush.
 type Worker struct {
-	r                            *Run
+	r                             *Run
 	Evals, States, Trans, Nontriv int64
-	hist                         map[string]int64
+	hist                          map[string]int64
 	// Cur is set by a check just before it calls into the library, so that a
 	// call that never returns can be reported with its input.
 	Cur    any
@@ -461,7 +468,7 @@ func (r *Run) ParFor(n int, fn func(i int, w *Worker)) {
 					r.Cap("internal deadline reached")
 					return
 				}
-				fn(i, w)
+				r.guard(w, func() { fn(i, w) })
 				r.progress.Add(1)
 			}
 		}()
@@ -469,10 +476,39 @@ func (r *Run) ParFor(n int, fn func(i int, w *Worker)) {
 	wg.Wait()
 }
 
+// guard runs one shard item; a panic escaping from the library (the checks
+// themselves recover where they expect one) is reported as a violation of
+// the property being checked, with the input the worker was on.
+func (r *Run) guard(w *Worker, fn func()) {
+	defer func() {
+		if p := recover(); p != nil {
+			buf := make([]byte, 2048)
+			buf = buf[:runtime.Stack(buf, false)]
+			c := Case{Kind: "panic", Op: fmt.Sprint(p)}
+			if r.Describe != nil && w.Cur != nil {
+				if d, ok := r.Describe(w.Cur); ok {
+					c = d
+				}
+			}
+			msg := fmt.Sprintf("panic: %v", p)
+			// first frame inside the library, for the report
+			for _, l := range strings.Split(string(buf), "\n") {
+				if strings.Contains(l, "/repo/") {
+					msg += " at " + strings.TrimSpace(l)
+					break
+				}
+			}
+			r.Fail("panic-in-library-call", func() (Case, string, string) { return c, "the call returns normally", msg })
+		}
+	}()
+	fn()
+}
+
 // Fail records that the code's answer differs from the oracle's on one input.
 // The input is looked up (by exact key) in the known-finding key sets.
 func (r *Run) Fail(class string, mk func() (Case, string, string)) {
 	c, exp, got := mk()
+	c.Class = class
 	h := HashKey(c.Key())
 	if d := os.Getenv("VERIF_DUMP"); d != "" && strings.HasPrefix(class, d) {
 		fmt.Printf("DUMP %s | %s | exp=%s got=%s\n", class, c.Key(), exp, got)
